@@ -28,7 +28,7 @@ CHECKS = {
    category="exploration",
    text="Seeded deterministic simulation of the real parent.rs + child.rs + frame.rs (client task, run_task, one controlled thread per child process, virtual timers, bounded pipes with short I/O, kill/exit/abort) over seeded request sequences from the property's alphabet (the first 9330 runs of a batch enumerate every sequence of kinds of length 1..5, every fault kind in every position; the rest are random); per-request reference oracle (own reply, in order, recovery, bounded liveness, no deadlock). Sampling, not enumeration: a clean batch is evidence. Violations are minimised and replay bit-for-bit.",
    design_ref="DESIGN.md 5.1",
-   note="Trusted: simkit's POSIX-like pipe/process/timer model (EPIPE, EOF, kill closes ends at once), one child = one controlled thread, interleavings at seam granularity, memory exhaustion modelled as alloc(limit+1)+abort on a private Alloc.",
+   note="Trusted: simkit's POSIX-like pipe/process/timer model (EPIPE, EOF, kill closes ends at once), one child = one controlled thread, interleavings at seam granularity; the child's memory limit is a private real Alloc charged by the test service and, through two hook lines in frame.rs, by the frame buffer and the serialised reply (exhaustion = abort).",
    technique="deterministic simulation with fault injection: seeded schedules x fault sequences, per-step reference oracle, minimised replay"),
  "C19": dict(
    engine="simkit+h-sandbox",
